@@ -28,6 +28,11 @@ pub enum Fault {
     Fail { point: String, k: usize, #[serde(default)] interrupted: bool },
     /// Every write to the metadata file takes at most `max` bytes (short writes).
     ShortWrites { max: usize },
+    /// Injected from outside with ptrace (`strace -e inject=`): at the `when`-th call (1-based, counted
+    /// per thread) of system call `call`, either SIGKILL the process (`errno` = None) or make the call
+    /// fail with `errno` (e.g. "ENOSPC", "EIO"). Reaches crash points inside tantivy that no
+    /// repository-level hook can.
+    Syscall { call: String, when: usize, #[serde(default)] errno: Option<String> },
 }
 
 #[derive(Serialize, Deserialize, Clone, Copy, Debug, PartialEq, Eq)]
@@ -91,7 +96,16 @@ pub enum Op {
         only: Option<Vec<usize>>,
     },
     /// C18: several lazily evaluated queries against one database, stepped in the given order.
-    Interleave { slot: usize, queries: Vec<QuerySpec>, acts: Vec<Act>, iso_slot: usize },
+    /// Isolation reference: with `iso_fresh` = Some(mode) every (text, flag) is evaluated alone on a
+    /// database handle opened for it and used for nothing else; otherwise on the shared `iso_slot`.
+    Interleave {
+        slot: usize,
+        queries: Vec<QuerySpec>,
+        acts: Vec<Act>,
+        iso_slot: usize,
+        #[serde(default)]
+        iso_fresh: Option<Mode>,
+    },
     /// Drop the database in `slot`.
     Drop { slot: usize },
 }
